@@ -1,0 +1,1090 @@
+	.file	"test_forg.c"
+	.text
+.Ltext0:
+	.file 0 "/repo/aldor/aldor/src" "test/test_forg.c"
+	.section	.rodata
+.LC0:
+	.string	"hello"
+.LC1:
+	.string	"world"
+.LC2:
+	.string	"1"
+.LC3:
+	.string	"2"
+.LC4:
+	.string	"3"
+.LC5:
+	.string	"4"
+.LC6:
+	.string	"5"
+.LC7:
+	.string	"6"
+.LC8:
+	.string	"7"
+.LC9:
+	.string	"8"
+.LC10:
+	.string	"10"
+	.text
+	.globl	forgTest
+	.type	forgTest, @function
+forgTest:
+.LFB0:
+	.file 1 "test/test_forg.c"
+	.loc 1 8 1
+	.cfi_startproc
+	pushq	%rbp
+	.cfi_def_cfa_offset 16
+	.cfi_offset 6, -16
+	movq	%rsp, %rbp
+	.cfi_def_cfa_register 6
+	subq	$64, %rsp
+	.loc 1 9 15
+	call	bufNew@PLT
+	movq	%rax, -8(%rbp)
+	.loc 1 11 24
+	leaq	.LC0(%rip), %rax
+	movq	%rax, %rdi
+	call	strCopy@PLT
+	movq	%rax, %rsi
+	movl	$3, %edi
+	call	forgNew@PLT
+	movq	%rax, -16(%rbp)
+	.loc 1 12 24
+	leaq	.LC1(%rip), %rax
+	movq	%rax, %rdi
+	call	strCopy@PLT
+	movq	%rax, %rsi
+	movl	$2, %edi
+	call	forgNew@PLT
+	movq	%rax, -24(%rbp)
+	.loc 1 13 24
+	movl	$0, %esi
+	movl	$2, %edi
+	call	forgNew@PLT
+	movq	%rax, -32(%rbp)
+	.loc 1 15 2
+	movq	-16(%rbp), %rdx
+	movq	-16(%rbp), %rax
+	movq	%rdx, %rsi
+	movq	%rax, %rdi
+	call	forgEqual@PLT
+	movl	%eax, %esi
+	leaq	.LC2(%rip), %rax
+	movq	%rax, %rdi
+	call	testTrue@PLT
+	.loc 1 16 2
+	movq	-24(%rbp), %rdx
+	movq	-24(%rbp), %rax
+	movq	%rdx, %rsi
+	movq	%rax, %rdi
+	call	forgEqual@PLT
+	movl	%eax, %esi
+	leaq	.LC3(%rip), %rax
+	movq	%rax, %rdi
+	call	testTrue@PLT
+	.loc 1 17 2
+	movq	-24(%rbp), %rdx
+	movq	-16(%rbp), %rax
+	movq	%rdx, %rsi
+	movq	%rax, %rdi
+	call	forgEqual@PLT
+	movl	%eax, %esi
+	leaq	.LC4(%rip), %rax
+	movq	%rax, %rdi
+	call	testFalse@PLT
+	.loc 1 18 2
+	movq	-32(%rbp), %rdx
+	movq	-16(%rbp), %rax
+	movq	%rdx, %rsi
+	movq	%rax, %rdi
+	call	forgEqual@PLT
+	movl	%eax, %esi
+	leaq	.LC5(%rip), %rax
+	movq	%rax, %rdi
+	call	testFalse@PLT
+	.loc 1 20 2
+	movq	-16(%rbp), %rdx
+	movq	-8(%rbp), %rax
+	movq	%rdx, %rsi
+	movq	%rax, %rdi
+	call	forgToBuffer@PLT
+	.loc 1 21 2
+	movq	-24(%rbp), %rdx
+	movq	-8(%rbp), %rax
+	movq	%rdx, %rsi
+	movq	%rax, %rdi
+	call	forgToBuffer@PLT
+	.loc 1 22 2
+	movq	-8(%rbp), %rax
+	movl	$0, %esi
+	movq	%rax, %rdi
+	call	bufSetPosition@PLT
+	.loc 1 24 12
+	movq	-8(%rbp), %rax
+	movq	%rax, %rdi
+	call	forgFrBuffer@PLT
+	movq	%rax, -40(%rbp)
+	.loc 1 25 12
+	movq	-8(%rbp), %rax
+	movq	%rax, %rdi
+	call	forgFrBuffer@PLT
+	movq	%rax, -48(%rbp)
+	.loc 1 27 2
+	movq	-16(%rbp), %rdx
+	movq	-40(%rbp), %rax
+	movq	%rdx, %rsi
+	movq	%rax, %rdi
+	call	forgEqual@PLT
+	movl	%eax, %esi
+	leaq	.LC6(%rip), %rax
+	movq	%rax, %rdi
+	call	testTrue@PLT
+	.loc 1 28 2
+	movq	-24(%rbp), %rdx
+	movq	-48(%rbp), %rax
+	movq	%rdx, %rsi
+	movq	%rax, %rdi
+	call	forgEqual@PLT
+	movl	%eax, %esi
+	leaq	.LC7(%rip), %rax
+	movq	%rax, %rdi
+	call	testTrue@PLT
+	.loc 1 30 12
+	movq	-8(%rbp), %rax
+	movq	%rax, %rdi
+	call	bufPosition@PLT
+	.loc 1 30 6
+	movl	%eax, -52(%rbp)
+	.loc 1 31 2
+	movq	-8(%rbp), %rax
+	movl	$0, %esi
+	movq	%rax, %rdi
+	call	bufSetPosition@PLT
+	.loc 1 32 2
+	movq	-8(%rbp), %rax
+	movq	%rax, %rdi
+	call	forgBufferSkip@PLT
+	.loc 1 33 2
+	movq	-8(%rbp), %rax
+	movq	%rax, %rdi
+	call	forgBufferSkip@PLT
+	.loc 1 34 25
+	movq	-8(%rbp), %rax
+	movq	%rax, %rdi
+	call	bufPosition@PLT
+	.loc 1 34 2
+	movl	%eax, %edx
+	movl	-52(%rbp), %eax
+	movl	%eax, %esi
+	leaq	.LC8(%rip), %rax
+	movq	%rax, %rdi
+	call	testIntEqual@PLT
+	.loc 1 36 2
+	movq	-8(%rbp), %rax
+	movl	$0, %esi
+	movq	%rax, %rdi
+	call	bufSetPosition@PLT
+	.loc 1 37 2
+	movq	-32(%rbp), %rdx
+	movq	-8(%rbp), %rax
+	movq	%rdx, %rsi
+	movq	%rax, %rdi
+	call	forgToBuffer@PLT
+	.loc 1 38 2
+	movq	-16(%rbp), %rdx
+	movq	-8(%rbp), %rax
+	movq	%rdx, %rsi
+	movq	%rax, %rdi
+	call	forgToBuffer@PLT
+	.loc 1 39 8
+	movq	-8(%rbp), %rax
+	movq	%rax, %rdi
+	call	bufPosition@PLT
+	.loc 1 39 6
+	movl	%eax, -52(%rbp)
+	.loc 1 41 2
+	movq	-8(%rbp), %rax
+	movl	$0, %esi
+	movq	%rax, %rdi
+	call	bufSetPosition@PLT
+	.loc 1 42 12
+	movq	-8(%rbp), %rax
+	movq	%rax, %rdi
+	call	forgFrBuffer@PLT
+	movq	%rax, -64(%rbp)
+	.loc 1 43 12
+	movq	-8(%rbp), %rax
+	movq	%rax, %rdi
+	call	forgFrBuffer@PLT
+	movq	%rax, -40(%rbp)
+	.loc 1 45 2
+	movq	-32(%rbp), %rdx
+	movq	-64(%rbp), %rax
+	movq	%rdx, %rsi
+	movq	%rax, %rdi
+	call	forgEqual@PLT
+	movl	%eax, %esi
+	leaq	.LC9(%rip), %rax
+	movq	%rax, %rdi
+	call	testTrue@PLT
+	.loc 1 46 2
+	movq	-16(%rbp), %rdx
+	movq	-40(%rbp), %rax
+	movq	%rdx, %rsi
+	movq	%rax, %rdi
+	call	forgEqual@PLT
+	movl	%eax, %esi
+	leaq	.LC9(%rip), %rax
+	movq	%rax, %rdi
+	call	testTrue@PLT
+	.loc 1 47 26
+	movq	-8(%rbp), %rax
+	movq	%rax, %rdi
+	call	bufPosition@PLT
+	.loc 1 47 2
+	movl	%eax, %edx
+	movl	-52(%rbp), %eax
+	movl	%eax, %esi
+	leaq	.LC10(%rip), %rax
+	movq	%rax, %rdi
+	call	testIntEqual@PLT
+	.loc 1 48 1
+	nop
+	leave
+	.cfi_def_cfa 7, 8
+	ret
+	.cfi_endproc
+.LFE0:
+	.size	forgTest, .-forgTest
+.Letext0:
+	.file 2 "/usr/lib/gcc/x86_64-linux-gnu/12/include/stddef.h"
+	.file 3 "./cport.h"
+	.file 4 "./buffer.h"
+	.file 5 "./axlobs.h"
+	.file 6 "./forg.h"
+	.file 7 "./foam.h"
+	.file 8 "test/testlib.h"
+	.file 9 "./strops.h"
+	.section	.debug_info,"",@progbits
+.Ldebug_info0:
+	.long	0x31f
+	.value	0x5
+	.byte	0x1
+	.byte	0x8
+	.long	.Ldebug_abbrev0
+	.uleb128 0xc
+	.long	.LASF52
+	.byte	0xc
+	.long	.LASF0
+	.long	.LASF1
+	.quad	.Ltext0
+	.quad	.Letext0-.Ltext0
+	.long	.Ldebug_line0
+	.uleb128 0xd
+	.byte	0x4
+	.byte	0x5
+	.string	"int"
+	.uleb128 0x3
+	.byte	0x1
+	.byte	0x8
+	.long	.LASF2
+	.uleb128 0x3
+	.byte	0x2
+	.byte	0x7
+	.long	.LASF3
+	.uleb128 0x3
+	.byte	0x4
+	.byte	0x7
+	.long	.LASF4
+	.uleb128 0x3
+	.byte	0x8
+	.byte	0x7
+	.long	.LASF5
+	.uleb128 0x3
+	.byte	0x1
+	.byte	0x6
+	.long	.LASF6
+	.uleb128 0x3
+	.byte	0x2
+	.byte	0x5
+	.long	.LASF7
+	.uleb128 0x3
+	.byte	0x8
+	.byte	0x5
+	.long	.LASF8
+	.uleb128 0x8
+	.long	0x6b
+	.uleb128 0x3
+	.byte	0x1
+	.byte	0x6
+	.long	.LASF9
+	.uleb128 0xe
+	.long	0x6b
+	.uleb128 0x3
+	.byte	0x4
+	.byte	0x4
+	.long	.LASF10
+	.uleb128 0x3
+	.byte	0x8
+	.byte	0x4
+	.long	.LASF11
+	.uleb128 0x9
+	.long	.LASF13
+	.byte	0x2
+	.byte	0xd6
+	.byte	0x1b
+	.long	0x4a
+	.uleb128 0x3
+	.byte	0x8
+	.byte	0x5
+	.long	.LASF12
+	.uleb128 0x8
+	.long	0x72
+	.uleb128 0x6
+	.long	.LASF14
+	.byte	0x3
+	.value	0x156
+	.byte	0xd
+	.long	0x2e
+	.uleb128 0x6
+	.long	.LASF15
+	.byte	0x3
+	.value	0x158
+	.byte	0x10
+	.long	0x85
+	.uleb128 0x6
+	.long	.LASF16
+	.byte	0x3
+	.value	0x16a
+	.byte	0xf
+	.long	0x66
+	.uleb128 0x6
+	.long	.LASF17
+	.byte	0x3
+	.value	0x16b
+	.byte	0x15
+	.long	0x98
+	.uleb128 0x9
+	.long	.LASF18
+	.byte	0x4
+	.byte	0x10
+	.byte	0x18
+	.long	0xdd
+	.uleb128 0x8
+	.long	0xe2
+	.uleb128 0xf
+	.long	.LASF53
+	.uleb128 0x9
+	.long	.LASF19
+	.byte	0x5
+	.byte	0x41
+	.byte	0x21
+	.long	0xf3
+	.uleb128 0x8
+	.long	0xf8
+	.uleb128 0x10
+	.long	.LASF54
+	.byte	0x10
+	.byte	0x6
+	.byte	0xb
+	.byte	0x8
+	.long	0x11e
+	.uleb128 0xa
+	.long	.LASF20
+	.byte	0xc
+	.byte	0xf
+	.long	0x17a
+	.byte	0
+	.uleb128 0xa
+	.long	.LASF21
+	.byte	0xd
+	.byte	0x9
+	.long	0xb7
+	.byte	0x8
+	.byte	0
+	.uleb128 0x11
+	.long	.LASF55
+	.byte	0x7
+	.byte	0x4
+	.long	0x43
+	.byte	0x7
+	.value	0x1b9
+	.byte	0x6
+	.long	0x17a
+	.uleb128 0x2
+	.long	.LASF22
+	.byte	0
+	.uleb128 0x2
+	.long	.LASF23
+	.byte	0
+	.uleb128 0x2
+	.long	.LASF24
+	.byte	0x1
+	.uleb128 0x2
+	.long	.LASF25
+	.byte	0x2
+	.uleb128 0x2
+	.long	.LASF26
+	.byte	0x3
+	.uleb128 0x2
+	.long	.LASF27
+	.byte	0x4
+	.uleb128 0x2
+	.long	.LASF28
+	.byte	0x5
+	.uleb128 0x2
+	.long	.LASF29
+	.byte	0x6
+	.uleb128 0x2
+	.long	.LASF30
+	.byte	0x7
+	.uleb128 0x2
+	.long	.LASF31
+	.byte	0x8
+	.uleb128 0x2
+	.long	.LASF32
+	.byte	0x9
+	.uleb128 0x2
+	.long	.LASF33
+	.byte	0xa
+	.byte	0
+	.uleb128 0x6
+	.long	.LASF34
+	.byte	0x7
+	.value	0x1e1
+	.byte	0x1b
+	.long	0x11e
+	.uleb128 0x4
+	.long	.LASF35
+	.byte	0x8
+	.byte	0x8
+	.byte	0x6
+	.long	0x1a3
+	.uleb128 0x1
+	.long	0xb7
+	.uleb128 0x1
+	.long	0x2e
+	.uleb128 0x1
+	.long	0x2e
+	.byte	0
+	.uleb128 0x4
+	.long	.LASF36
+	.byte	0x6
+	.byte	0x19
+	.byte	0xd
+	.long	0x1b5
+	.uleb128 0x1
+	.long	0xd1
+	.byte	0
+	.uleb128 0x7
+	.long	.LASF37
+	.byte	0x4
+	.byte	0x1d
+	.byte	0xf
+	.long	0xaa
+	.long	0x1cb
+	.uleb128 0x1
+	.long	0xd1
+	.byte	0
+	.uleb128 0x7
+	.long	.LASF38
+	.byte	0x6
+	.byte	0x16
+	.byte	0x16
+	.long	0xe7
+	.long	0x1e1
+	.uleb128 0x1
+	.long	0xd1
+	.byte	0
+	.uleb128 0x4
+	.long	.LASF39
+	.byte	0x4
+	.byte	0x1e
+	.byte	0xd
+	.long	0x1f8
+	.uleb128 0x1
+	.long	0xd1
+	.uleb128 0x1
+	.long	0xaa
+	.byte	0
+	.uleb128 0x4
+	.long	.LASF40
+	.byte	0x6
+	.byte	0x17
+	.byte	0xd
+	.long	0x20f
+	.uleb128 0x1
+	.long	0xd1
+	.uleb128 0x1
+	.long	0xe7
+	.byte	0
+	.uleb128 0x4
+	.long	.LASF41
+	.byte	0x8
+	.byte	0xd
+	.byte	0x6
+	.long	0x226
+	.uleb128 0x1
+	.long	0xb7
+	.uleb128 0x1
+	.long	0x9d
+	.byte	0
+	.uleb128 0x4
+	.long	.LASF42
+	.byte	0x8
+	.byte	0xc
+	.byte	0x6
+	.long	0x23d
+	.uleb128 0x1
+	.long	0xb7
+	.uleb128 0x1
+	.long	0x9d
+	.byte	0
+	.uleb128 0x7
+	.long	.LASF43
+	.byte	0x6
+	.byte	0x12
+	.byte	0xd
+	.long	0x9d
+	.long	0x258
+	.uleb128 0x1
+	.long	0xe7
+	.uleb128 0x1
+	.long	0xe7
+	.byte	0
+	.uleb128 0x7
+	.long	.LASF44
+	.byte	0x6
+	.byte	0x10
+	.byte	0x16
+	.long	0xe7
+	.long	0x273
+	.uleb128 0x1
+	.long	0x17a
+	.uleb128 0x1
+	.long	0xb7
+	.byte	0
+	.uleb128 0x7
+	.long	.LASF45
+	.byte	0x9
+	.byte	0x1c
+	.byte	0xf
+	.long	0xb7
+	.long	0x289
+	.uleb128 0x1
+	.long	0xc4
+	.byte	0
+	.uleb128 0x12
+	.long	.LASF56
+	.byte	0x4
+	.byte	0x12
+	.byte	0xf
+	.long	0xd1
+	.uleb128 0x13
+	.long	.LASF57
+	.byte	0x1
+	.byte	0x7
+	.byte	0x6
+	.quad	.LFB0
+	.quad	.LFE0-.LFB0
+	.uleb128 0x1
+	.byte	0x9c
+	.uleb128 0xb
+	.string	"buf"
+	.byte	0x9
+	.byte	0x9
+	.long	0xd1
+	.uleb128 0x2
+	.byte	0x91
+	.sleb128 -24
+	.uleb128 0x5
+	.long	.LASF46
+	.byte	0xb
+	.byte	0x10
+	.long	0xe7
+	.uleb128 0x2
+	.byte	0x91
+	.sleb128 -32
+	.uleb128 0x5
+	.long	.LASF47
+	.byte	0xc
+	.byte	0x10
+	.long	0xe7
+	.uleb128 0x2
+	.byte	0x91
+	.sleb128 -40
+	.uleb128 0x5
+	.long	.LASF48
+	.byte	0xd
+	.byte	0x10
+	.long	0xe7
+	.uleb128 0x2
+	.byte	0x91
+	.sleb128 -48
+	.uleb128 0x5
+	.long	.LASF49
+	.byte	0xe
+	.byte	0x10
+	.long	0xe7
+	.uleb128 0x2
+	.byte	0x91
+	.sleb128 -56
+	.uleb128 0x5
+	.long	.LASF50
+	.byte	0xe
+	.byte	0x19
+	.long	0xe7
+	.uleb128 0x2
+	.byte	0x91
+	.sleb128 -64
+	.uleb128 0x5
+	.long	.LASF51
+	.byte	0xe
+	.byte	0x22
+	.long	0xe7
+	.uleb128 0x3
+	.byte	0x91
+	.sleb128 -80
+	.uleb128 0xb
+	.string	"pos"
+	.byte	0x1e
+	.byte	0x6
+	.long	0x2e
+	.uleb128 0x3
+	.byte	0x91
+	.sleb128 -68
+	.byte	0
+	.byte	0
+	.section	.debug_abbrev,"",@progbits
+.Ldebug_abbrev0:
+	.uleb128 0x1
+	.uleb128 0x5
+	.byte	0
+	.uleb128 0x49
+	.uleb128 0x13
+	.byte	0
+	.byte	0
+	.uleb128 0x2
+	.uleb128 0x28
+	.byte	0
+	.uleb128 0x3
+	.uleb128 0xe
+	.uleb128 0x1c
+	.uleb128 0xb
+	.byte	0
+	.byte	0
+	.uleb128 0x3
+	.uleb128 0x24
+	.byte	0
+	.uleb128 0xb
+	.uleb128 0xb
+	.uleb128 0x3e
+	.uleb128 0xb
+	.uleb128 0x3
+	.uleb128 0xe
+	.byte	0
+	.byte	0
+	.uleb128 0x4
+	.uleb128 0x2e
+	.byte	0x1
+	.uleb128 0x3f
+	.uleb128 0x19
+	.uleb128 0x3
+	.uleb128 0xe
+	.uleb128 0x3a
+	.uleb128 0xb
+	.uleb128 0x3b
+	.uleb128 0xb
+	.uleb128 0x39
+	.uleb128 0xb
+	.uleb128 0x27
+	.uleb128 0x19
+	.uleb128 0x3c
+	.uleb128 0x19
+	.uleb128 0x1
+	.uleb128 0x13
+	.byte	0
+	.byte	0
+	.uleb128 0x5
+	.uleb128 0x34
+	.byte	0
+	.uleb128 0x3
+	.uleb128 0xe
+	.uleb128 0x3a
+	.uleb128 0x21
+	.sleb128 1
+	.uleb128 0x3b
+	.uleb128 0xb
+	.uleb128 0x39
+	.uleb128 0xb
+	.uleb128 0x49
+	.uleb128 0x13
+	.uleb128 0x2
+	.uleb128 0x18
+	.byte	0
+	.byte	0
+	.uleb128 0x6
+	.uleb128 0x16
+	.byte	0
+	.uleb128 0x3
+	.uleb128 0xe
+	.uleb128 0x3a
+	.uleb128 0xb
+	.uleb128 0x3b
+	.uleb128 0x5
+	.uleb128 0x39
+	.uleb128 0xb
+	.uleb128 0x49
+	.uleb128 0x13
+	.byte	0
+	.byte	0
+	.uleb128 0x7
+	.uleb128 0x2e
+	.byte	0x1
+	.uleb128 0x3f
+	.uleb128 0x19
+	.uleb128 0x3
+	.uleb128 0xe
+	.uleb128 0x3a
+	.uleb128 0xb
+	.uleb128 0x3b
+	.uleb128 0xb
+	.uleb128 0x39
+	.uleb128 0xb
+	.uleb128 0x27
+	.uleb128 0x19
+	.uleb128 0x49
+	.uleb128 0x13
+	.uleb128 0x3c
+	.uleb128 0x19
+	.uleb128 0x1
+	.uleb128 0x13
+	.byte	0
+	.byte	0
+	.uleb128 0x8
+	.uleb128 0xf
+	.byte	0
+	.uleb128 0xb
+	.uleb128 0x21
+	.sleb128 8
+	.uleb128 0x49
+	.uleb128 0x13
+	.byte	0
+	.byte	0
+	.uleb128 0x9
+	.uleb128 0x16
+	.byte	0
+	.uleb128 0x3
+	.uleb128 0xe
+	.uleb128 0x3a
+	.uleb128 0xb
+	.uleb128 0x3b
+	.uleb128 0xb
+	.uleb128 0x39
+	.uleb128 0xb
+	.uleb128 0x49
+	.uleb128 0x13
+	.byte	0
+	.byte	0
+	.uleb128 0xa
+	.uleb128 0xd
+	.byte	0
+	.uleb128 0x3
+	.uleb128 0xe
+	.uleb128 0x3a
+	.uleb128 0x21
+	.sleb128 6
+	.uleb128 0x3b
+	.uleb128 0xb
+	.uleb128 0x39
+	.uleb128 0xb
+	.uleb128 0x49
+	.uleb128 0x13
+	.uleb128 0x38
+	.uleb128 0xb
+	.byte	0
+	.byte	0
+	.uleb128 0xb
+	.uleb128 0x34
+	.byte	0
+	.uleb128 0x3
+	.uleb128 0x8
+	.uleb128 0x3a
+	.uleb128 0x21
+	.sleb128 1
+	.uleb128 0x3b
+	.uleb128 0xb
+	.uleb128 0x39
+	.uleb128 0xb
+	.uleb128 0x49
+	.uleb128 0x13
+	.uleb128 0x2
+	.uleb128 0x18
+	.byte	0
+	.byte	0
+	.uleb128 0xc
+	.uleb128 0x11
+	.byte	0x1
+	.uleb128 0x25
+	.uleb128 0xe
+	.uleb128 0x13
+	.uleb128 0xb
+	.uleb128 0x3
+	.uleb128 0x1f
+	.uleb128 0x1b
+	.uleb128 0x1f
+	.uleb128 0x11
+	.uleb128 0x1
+	.uleb128 0x12
+	.uleb128 0x7
+	.uleb128 0x10
+	.uleb128 0x17
+	.byte	0
+	.byte	0
+	.uleb128 0xd
+	.uleb128 0x24
+	.byte	0
+	.uleb128 0xb
+	.uleb128 0xb
+	.uleb128 0x3e
+	.uleb128 0xb
+	.uleb128 0x3
+	.uleb128 0x8
+	.byte	0
+	.byte	0
+	.uleb128 0xe
+	.uleb128 0x26
+	.byte	0
+	.uleb128 0x49
+	.uleb128 0x13
+	.byte	0
+	.byte	0
+	.uleb128 0xf
+	.uleb128 0x13
+	.byte	0
+	.uleb128 0x3
+	.uleb128 0xe
+	.uleb128 0x3c
+	.uleb128 0x19
+	.byte	0
+	.byte	0
+	.uleb128 0x10
+	.uleb128 0x13
+	.byte	0x1
+	.uleb128 0x3
+	.uleb128 0xe
+	.uleb128 0xb
+	.uleb128 0xb
+	.uleb128 0x3a
+	.uleb128 0xb
+	.uleb128 0x3b
+	.uleb128 0xb
+	.uleb128 0x39
+	.uleb128 0xb
+	.uleb128 0x1
+	.uleb128 0x13
+	.byte	0
+	.byte	0
+	.uleb128 0x11
+	.uleb128 0x4
+	.byte	0x1
+	.uleb128 0x3
+	.uleb128 0xe
+	.uleb128 0x3e
+	.uleb128 0xb
+	.uleb128 0xb
+	.uleb128 0xb
+	.uleb128 0x49
+	.uleb128 0x13
+	.uleb128 0x3a
+	.uleb128 0xb
+	.uleb128 0x3b
+	.uleb128 0x5
+	.uleb128 0x39
+	.uleb128 0xb
+	.uleb128 0x1
+	.uleb128 0x13
+	.byte	0
+	.byte	0
+	.uleb128 0x12
+	.uleb128 0x2e
+	.byte	0
+	.uleb128 0x3f
+	.uleb128 0x19
+	.uleb128 0x3
+	.uleb128 0xe
+	.uleb128 0x3a
+	.uleb128 0xb
+	.uleb128 0x3b
+	.uleb128 0xb
+	.uleb128 0x39
+	.uleb128 0xb
+	.uleb128 0x27
+	.uleb128 0x19
+	.uleb128 0x49
+	.uleb128 0x13
+	.uleb128 0x3c
+	.uleb128 0x19
+	.byte	0
+	.byte	0
+	.uleb128 0x13
+	.uleb128 0x2e
+	.byte	0x1
+	.uleb128 0x3f
+	.uleb128 0x19
+	.uleb128 0x3
+	.uleb128 0xe
+	.uleb128 0x3a
+	.uleb128 0xb
+	.uleb128 0x3b
+	.uleb128 0xb
+	.uleb128 0x39
+	.uleb128 0xb
+	.uleb128 0x27
+	.uleb128 0x19
+	.uleb128 0x11
+	.uleb128 0x1
+	.uleb128 0x12
+	.uleb128 0x7
+	.uleb128 0x40
+	.uleb128 0x18
+	.uleb128 0x7c
+	.uleb128 0x19
+	.byte	0
+	.byte	0
+	.byte	0
+	.section	.debug_aranges,"",@progbits
+	.long	0x2c
+	.value	0x2
+	.long	.Ldebug_info0
+	.byte	0x8
+	.byte	0
+	.value	0
+	.value	0
+	.quad	.Ltext0
+	.quad	.Letext0-.Ltext0
+	.quad	0
+	.quad	0
+	.section	.debug_line,"",@progbits
+.Ldebug_line0:
+	.section	.debug_str,"MS",@progbits,1
+.LASF9:
+	.string	"char"
+.LASF13:
+	.string	"size_t"
+.LASF20:
+	.string	"protocol"
+.LASF28:
+	.string	"FOAM_Proto_JavaMethod"
+.LASF22:
+	.string	"FOAM_PROTO_START"
+.LASF10:
+	.string	"float"
+.LASF53:
+	.string	"buffer"
+.LASF17:
+	.string	"CString"
+.LASF16:
+	.string	"String"
+.LASF44:
+	.string	"forgNew"
+.LASF36:
+	.string	"forgBufferSkip"
+.LASF24:
+	.string	"FOAM_Proto_Fortran"
+.LASF21:
+	.string	"file"
+.LASF50:
+	.string	"forg2_r"
+.LASF18:
+	.string	"Buffer"
+.LASF2:
+	.string	"unsigned char"
+.LASF43:
+	.string	"forgEqual"
+.LASF35:
+	.string	"testIntEqual"
+.LASF32:
+	.string	"FOAM_Proto_Other"
+.LASF14:
+	.string	"Bool"
+.LASF5:
+	.string	"long unsigned int"
+.LASF3:
+	.string	"short unsigned int"
+.LASF37:
+	.string	"bufPosition"
+.LASF30:
+	.string	"FOAM_Proto_Init"
+.LASF31:
+	.string	"FOAM_Proto_Include"
+.LASF45:
+	.string	"strCopy"
+.LASF33:
+	.string	"FOAM_PROTO_LIMIT"
+.LASF11:
+	.string	"double"
+.LASF25:
+	.string	"FOAM_Proto_C"
+.LASF7:
+	.string	"short int"
+.LASF27:
+	.string	"FOAM_Proto_JavaConstructor"
+.LASF29:
+	.string	"FOAM_Proto_Lisp"
+.LASF56:
+	.string	"bufNew"
+.LASF4:
+	.string	"unsigned int"
+.LASF46:
+	.string	"forg1"
+.LASF47:
+	.string	"forg2"
+.LASF48:
+	.string	"forg3"
+.LASF57:
+	.string	"forgTest"
+.LASF51:
+	.string	"forg3_r"
+.LASF34:
+	.string	"FoamProtoTag"
+.LASF12:
+	.string	"long long int"
+.LASF38:
+	.string	"forgFrBuffer"
+.LASF39:
+	.string	"bufSetPosition"
+.LASF40:
+	.string	"forgToBuffer"
+.LASF52:
+	.string	"GNU C99 12.2.0 -mtune=generic -march=x86-64 -g -O0 -std=c99 -fasynchronous-unwind-tables"
+.LASF26:
+	.string	"FOAM_Proto_Java"
+.LASF23:
+	.string	"FOAM_Proto_Foam"
+.LASF8:
+	.string	"long int"
+.LASF15:
+	.string	"Length"
+.LASF55:
+	.string	"foamProtoTag"
+.LASF6:
+	.string	"signed char"
+.LASF54:
+	.string	"foreign_origin"
+.LASF41:
+	.string	"testFalse"
+.LASF49:
+	.string	"forg1_r"
+.LASF19:
+	.string	"ForeignOrigin"
+.LASF42:
+	.string	"testTrue"
+	.section	.debug_line_str,"MS",@progbits,1
+.LASF0:
+	.string	"test/test_forg.c"
+.LASF1:
+	.string	"/repo/aldor/aldor/src"
+	.ident	"GCC: (Debian 12.2.0-14+deb12u1) 12.2.0"
+	.section	.note.GNU-stack,"",@progbits
